@@ -324,7 +324,12 @@ theorem splitPath_eq_impl {path : Bytes} {parts : List Bytes} {key : Bytes}
       split at h
       · rename_i hpe; exact absurd hpe hk
       · cases h
-    | cons y ys => rw [hs] at h; exact h
+    | cons y ys =>
+      rw [hs] at h
+      simp only at h
+      split at h
+      · cases h
+      · exact h
 
 /-- an action on the container found refines an edit of the specification; `L` = the failure
 causes for which the action is required to report an error -/
